@@ -32,14 +32,14 @@ ExpectCluster(e) ==  \* <<hi, lo>> the decoder must report
 SlotTags(e) ==
   LET s == e.raw  d == e.dec  n == e.enc IN
   IF e.panic THEN V("DirEntry", "panic decoding / encoding a directory entry")
-  ELSE (IF d.name # SlotName(s) THEN V("DirEntry", "name is not bytes 0..10") ELSE {})
+  ELSE (IF d.name # NameOf(s) THEN V("DirEntry", "name is not bytes 0..10 (with 0x05 standing for a leading 0xE5)") ELSE {})
     \cup (IF d.attr # SlotAttr(s) % 64 THEN V("DirEntry", "attributes are not byte 11") ELSE {})
     \cup (IF <<d.chi, d.clo>> # ExpectCluster(e) THEN V("DirEntry", "start cluster is not bytes 26..27 (and 20..21 on FAT32)") ELSE {})
     \cup (IF d.slo # SlotSizeLo(s) \/ d.shi # SlotSizeHi(s) THEN V("DirEntry", "size is not bytes 28..31") ELSE {})
     \cup (IF RepDate(SlotWrtDate(s)) /\ RepTime(SlotWrtTime(s)) /\ d.mt # TsOf(SlotWrtDate(s), SlotWrtTime(s)) THEN V("DirEntry", "modification time is not bytes 22..25") ELSE {})
     \cup (IF RepDate(SlotCrtDate(s)) /\ RepTime(SlotCrtTime(s)) /\ d.ct # TsOf(SlotCrtDate(s), SlotCrtTime(s)) THEN V("DirEntry", "creation time is not bytes 14..17") ELSE {})
     \* encoding: the same bytes at the same offsets (bytes 12, 13, 18, 19 are written as zero: named deviation)
-    \cup (IF SlotName(n) # SlotName(s) \/ SlotAttr(n) % 64 # SlotAttr(s) % 64 THEN V("DirEntry", "encoded name/attributes differ") ELSE {})
+    \cup (IF SlotName(n) # StoredName(NameOf(s)) \/ SlotAttr(n) % 64 # SlotAttr(s) % 64 THEN V("DirEntry", "encoded name/attributes differ") ELSE {})
     \cup (IF <<IF e.fat32 THEN SlotClusHi(n) ELSE 0, SlotClusLo(n)>> # ExpectCluster(e) /\ ~(~e.fat32 /\ ExpectCluster(e) = <<65535, 65532>> /\ SlotClusLo(n) = 65532)
           THEN V("DirEntry", "encoded start cluster is not at bytes 26..27 / 20..21") ELSE {})
     \cup (IF ~e.fat32 /\ SlotClusHi(n) # 0 THEN V("DirEntry", "FAT16 entry encoded with a high cluster word") ELSE {})
